@@ -2367,6 +2367,11 @@ class Ggate(Gate):
         super().__init__([S, d])
         self.ns = S.shape[-1] // 2
 
+    def merge(self, other):
+        # Gate.merge adds the first parameters, which is meaningless for symplectic matrices
+        # (and comparing the array-valued parameters with == raises)
+        raise MergeFailure("General Gaussian gates cannot be merged.")
+
     def _apply(self, reg, backend, **kwargs):
         S, d = par_evaluate(self.p)
         backend.gaussian_gate(S, d, *reg)
